@@ -44,6 +44,10 @@ const std::vector<Case>& cases() {
 		{"clm-total", {G + G / 2, G + G / 2, G + G / 2, 10}, false, 0},
 		{"clm-total", {0x7fffff00ull, 0x7fffff00ull, 0x400, 5}, false, 0},
 		{"clm-total", {0xffffff00ull, 0x200, 7}, false, 0},
+		// the LAST track's data offset exactly on / just beyond 2^32 (arg as for vol-edge; CLM data is not aligned, so +1 exists)
+		{"clm-edge", {}, false, 0},
+		{"clm-edge", {}, false, 1},
+		{"clm-edge", {}, false, ~0ull},
 		{"clm-name", {}, false, 9},
 		{"clm-name", {}, false, 12},
 		{"prefix", {}, false, 256},       // arg = element count; prefix type from arg range
@@ -56,6 +60,7 @@ const std::vector<Case>& cases() {
 		// at-limit quantities that fit (context only: success is not asserted, an over-eager refusal is not a C20 violation)
 		{"vol-member", {(1ull << 31) - 1}, true, 0},
 		{"vol-edge", {}, true, static_cast<uint64_t>(-4)}, // last block offset 2^32 - 4: representable
+		{"clm-edge", {}, true, static_cast<uint64_t>(-1)}, // last data offset 2^32 - 1: representable
 		{"clm-name", {}, true, 8},
 		{"prefix", {}, true, 255},
 		{"prefix", {}, true, 65535},
@@ -144,25 +149,32 @@ struct Limits : Family {
 				std::string diff = disk::snapshotDiff(before, disk::snapshot());
 				if (!diff.empty()) ctx.fail("C20.vol-dest-untouched", desc + ": refused, but the destination was created or altered:" + diff);
 			}
-		} else if (kind == "clm-total") {
+		} else if (kind == "clm-total" || kind == "clm-edge") {
 			std::vector<std::string> list;
-			for (size_t i = 0; i < c.sizes.size(); ++i) {
+			std::vector<uint64_t> sizes = c.sizes;
+			if (kind == "clm-edge") {
+				// three tracks; header = 60 + 16 per entry (independent CLM description); the third track's data offset is the target
+				const uint64_t H = 60 + 16 * 3, a = 0x7ffffff0ull;
+				uint64_t target = (1ull << 32) + (c.arg == ~0ull ? H - 1 : c.arg);
+				sizes = {a, target - H - a, 7};
+			}
+			for (size_t i = 0; i < sizes.size(); ++i) {
 				// real 46-byte header (RIFF size and data length consistent) + sparse body
 				ref::WavSpec w;
 				std::vector<uint8_t> hdr = ref::encodeWav(w);
-				uint32_t dataLen = static_cast<uint32_t>(c.sizes[i]);
-				uint32_t riff = static_cast<uint32_t>(38 + c.sizes[i]);
+				uint32_t dataLen = static_cast<uint32_t>(sizes[i]);
+				uint32_t riff = static_cast<uint32_t>(38 + sizes[i]);
 				for (int k = 0; k < 4; ++k) { hdr[4 + static_cast<size_t>(k)] = static_cast<uint8_t>(riff >> (8 * k)); hdr[42 + static_cast<size_t>(k)] = static_cast<uint8_t>(dataLen >> (8 * k)); }
 				std::string nm = "_in/" + std::string(1, static_cast<char>('a' + i)) + randName(r, 1, 6, false) + ".wav";
 				disk::put(nm, hdr);
-				if (truncate(nm.c_str(), static_cast<off_t>(46 + c.sizes[i])) != 0) throw std::runtime_error("cannot extend sparse wav");
+				if (truncate(nm.c_str(), static_cast<off_t>(46 + sizes[i])) != 0) throw std::runtime_error("cannot extend sparse wav");
 				list.push_back(nm);
 			}
 			std::string out = "_big.clm";
 			if (sentinel) disk::put(out, prngBytes(nseed ^ 5, 64));
 			Out o = callLib(plan, [&] { Archive::ClmFile::CreateArchive(out, list); }, &what);
 			std::string desc = "ClmFile::CreateArchive with data lengths";
-			for (auto s : c.sizes) desc += " " + std::to_string(s);
+			for (auto s : sizes) desc += " " + std::to_string(s);
 			refuseOrFit(o, desc);
 		} else if (kind == "clm-name") {
 			ref::WavSpec w;
